@@ -218,6 +218,7 @@ class ShardResult:
     def mismatch(self, bucket, case, expected=None, observed=None, detail=None, cap_per_bucket=5):
         n = sum(1 for m in self.mismatches if m["bucket"] == bucket)
         self.count("mismatch:" + bucket)
+        self.count("mismatch_total")
         if n < cap_per_bucket:
             self.mismatches.append(
                 {"bucket": bucket, "case": case, "expected": expected, "observed": observed, "detail": detail}
